@@ -8,6 +8,7 @@ import subprocess
 import time
 
 VERIF = os.path.dirname(os.path.dirname(os.path.abspath(__file__)))
+OUT = os.environ.get("VERIF_OUT", VERIF)
 BUILD = os.environ.get("VERIF_BUILD", os.path.join(VERIF, "build"))
 
 
